@@ -145,7 +145,7 @@ Definition eval (op : Z) (a : list float) : option (list float) :=
           match els_in r with Some els => Some (els_out (aff_mul_path m els)) | None => None end
   | 19 => do (m, r) <- aff_in a; do (n, r) <- aff_in r;
           done r (aff_out (el_inner (aff_mul_ellipse m (ellipse_from_affine n))))
-  | 20 => do (m, r) <- aff_in a; done r (v_out (fst (aff_svd m)))           (* Ellipse::radii: no libm involved *)
+  | 20 => do (m, r) <- aff_in a; done r (v_out (fst (aff_svd_det m)))       (* Ellipse::radii: no libm involved *)
   | 21 => do (m, r) <- aff_in a; do (v, r) <- v_in r; do (c, r) <- pt_in r;
           let e := ellipse_from_affine m in
           done r (aff_out (el_inner (ellipse_add_v e v)) ++ aff_out (el_inner (ellipse_sub_v e v))
@@ -189,37 +189,23 @@ Definition eval (op : Z) (a : list float) : option (list float) :=
   | 55 => do (m, r) <- aff_in a; do (th, r) <- f_in r; do (c, r) <- pt_in r;
           done r (aff_out (aff_then_rotate_about m th c))
   | 56 => do (p, r) <- pt_in a; do (d, r) <- v_in r; done r (aff_out (aff_reflect p d))
-  | 57 => do (m, r) <- aff_in a; done r [snd (aff_svd m)]
+  | 57 => do (m, r) <- aff_in a; done r [snd (aff_svd_det m)]
   | 58 => do (c, r) <- pt_in a; do (rd, r) <- v_in r; do (rot, r) <- f_in r;
           let e := ellipse_new c rd rot in
           let '(radii, rotation) := ellipse_radii_and_rotation e in
           done r (aff_out (el_inner e) ++ v_out radii ++ [rotation])
-  | 60 => (* Affine * Arc: centre, radii, x_rotation (the part the pinned code and the repair share) *)
+  | 60 => (* Affine * Arc: centre, radii, x_rotation *)
           do (m, r) <- aff_in a; do (arc, r) <- arc_in r;
           let i := aff_mul_arc m arc in
           done r (pt_out (arc_center i) ++ v_out (arc_radii i) ++ [arc_x_rotation i])
-  | 61 => (* Affine * Arc: start and sweep angle, as the property requires *)
+  | 61 => (* Affine * Arc: start and sweep angle *)
           do (m, r) <- aff_in a; do (arc, r) <- arc_in r;
           let i := aff_mul_arc m arc in done r [arc_start_angle i; arc_sweep_angle i]
-  | 62 => (* the pinned Affine * Arc, complete (used only to confirm the model of the pinned code) *)
-          do (m, r) <- aff_in a; do (arc, r) <- arc_in r;
-          let i := aff_mul_arc_pinned m arc in
-          done r (pt_out (arc_center i) ++ v_out (arc_radii i)
-                  ++ [arc_start_angle i; arc_sweep_angle i; arc_x_rotation i])
   | 63 => (* first point of Arc::path_elements: centre + sample_ellipse(radii, x_rotation, start_angle) *)
           do (arc, r) <- arc_in a; done r (pt_out (arc_eval arc 0%float))
-  | 64 => (* the pinned pre_rotate_about (used only to confirm the model of the pinned code) *)
-          do (m, r) <- aff_in a; do (th, r) <- f_in r; do (c, r) <- pt_in r;
-          done r (aff_out (aff_pre_rotate_about_pinned m th c))
-  | 65 => (* the pinned TranslateScale * RoundedRect *)
-          do (t, r) <- ts_in a; do (q, r) <- rect_in r; do (rd, r) <- radii_in r;
-          let rr := ts_mul_rrect_pinned t (mkRoundedRect q rd) in
-          done r (rect_out (rr_rect rr) ++ radii_out (rr_radii rr))
-  | 66 => (* Ellipse::radii when svd takes the minor radius from the determinant (C10's repair) *)
-          do (m, r) <- aff_in a; done r (v_out (fst (aff_svd_det m)))
   | _ => None
   end.
 
-Definition tol (op : Z) : option float := if (op <? 50) || (op =? 66) then None else Some 0x1.12e0be826d695p-30%float. (* 1e-9 *)
+Definition tol (op : Z) : option float := if op <? 50 then None else Some 0x1.12e0be826d695p-30%float. (* 1e-9 *)
 Definition failures := Corr.failures eval tol.
 Definition outputs := Corr.outputs eval.
